@@ -24,7 +24,7 @@ B_W8, B_W4, B_RSQRT = 0.15, 0.4, 0.4
 
 
 def cases(tier):
-  for c in universe.graph_cases([(1, eg.T21, 'all', 'none')]):
+  for c in universe.graph_cases([(1, eg.T21, 'allx', 'none')]):
     for wk in (['rand', 'pos'] if tier == 'quick'
                else ['rand', 'pos', 'neg', 'outlier', 'ramp']):
       cc = {'ir': {'subgraphs': [dict(c['ir']['subgraphs'][0], ops=[
